@@ -575,6 +575,8 @@ static JanetSlot janetc_def(JanetFopts opts, int32_t argn, const Janet *argv) {
 static int janetc_check_nil_form(Janet x, Janet *capture, uint32_t fun_tag) {
     if (!janet_checktype(x, JANET_TUPLE)) return 0;
     JanetTuple tup = janet_unwrap_tuple(x);
+    /* A bracketed tuple constructs a tuple, it is not a call */
+    if (janet_tuple_flag(tup) & JANET_TUPLE_FLAG_BRACKETCTOR) return 0;
     if (3 != janet_tuple_length(tup)) return 0;
     Janet op1 = tup[0];
     if (!janet_checktype(op1, JANET_FUNCTION)) return 0;
